@@ -12,8 +12,10 @@ import GlmVerif.Gen.C16.rows_9
 import GlmVerif.Gen.C16.rows_10
 import GlmVerif.Gen.C16.rows_11
 import GlmVerif.Gen.C16.rows_12
+import GlmVerif.Gen.C16.rows_13
+import GlmVerif.Gen.C16.rows_14
 namespace Glm.Gen.C16
 open Glm.Layout
-def rows : List Row := rows_0 ++ rows_1 ++ rows_2 ++ rows_3 ++ rows_4 ++ rows_5 ++ rows_6 ++ rows_7 ++ rows_8 ++ rows_9 ++ rows_10 ++ rows_11 ++ rows_12
+def rows : List Row := rows_0 ++ rows_1 ++ rows_2 ++ rows_3 ++ rows_4 ++ rows_5 ++ rows_6 ++ rows_7 ++ rows_8 ++ rows_9 ++ rows_10 ++ rows_11 ++ rows_12 ++ rows_13 ++ rows_14
 def probeFailures : Nat := 0
 end Glm.Gen.C16
